@@ -131,6 +131,7 @@ func (x *Exec) modelCall(bc *blockCtx, in ssa.Instruction, name string, f *ssa.F
 				ax := t(0)
 				ay := x.mathAbs(t(1))
 				k := x.b.Fresh("modk", "Int")
+				x.intWitnesses = append(x.intWitnesses, k)
 				x.assume(bc.reach, x.b.Implies(x.b.Not(x.b.Eq(t(1), x.realLit(0))),
 					x.b.And(x.b.Cmp("<", x.mathAbs(r), ay),
 						x.b.Implies(x.b.Cmp(">=", ax, x.realLit(0)), x.b.Cmp(">=", r, x.realLit(0))),
